@@ -1230,6 +1230,10 @@ func TestRegress(t *testing.T) {
 }
 
 func TestReplay(t *testing.T) {
+	if stats.ReplayStage() == "lifecycle" {
+		replayLifecycle(t)
+		return
+	}
 	var c Case
 	ok, err := stats.LoadReplay(&c)
 	if !ok {
